@@ -426,3 +426,13 @@ package diff
 //@ modifies nothing
 //@ ensures !fmtJSON ==> result1 == nil && (result2 != nil) == (sd.BreakingChangeCount() > 0)
 //@ ensures @C15 fmtJSON && result1 == nil ==> (result2 != nil) == (sd.BreakingChangeCount() > 0)
+
+//@ func SpecDifference.String
+//@ props C15
+//@ trusted
+//@ pure
+
+//@ func Compare
+//@ props C15
+//@ trusted
+//@ modifies nothing
